@@ -8,6 +8,7 @@ import Driver.BridgeStore
 import Driver.L1InfoStore
 import Driver.Downloader
 import Driver.LastGER
+import Driver.EvmBridge
 import Driver.Oracle
 import Driver.Aggsender
 import Driver.CertCodec
@@ -34,6 +35,7 @@ def main (args : List String) : IO UInt32 := do
   | ["l1infostore"] => loop inp Driver.L1InfoStore.step (Aggkit.L1InfoStore.LP.init Driver.Tree.H Driver.Tree.N); return 0
   | ["downloader"] => loop inp Driver.Downloader.step (); return 0
   | ["gersync"] => loop inp Driver.LastGER.step {}; return 0
+  | ["evmbridge"] => loop inp Driver.EvmBridge.step {}; return 0
   | ["oracle"] => loop inp Driver.Oracle.step {}; return 0
   | ["aggsender"] => loop inp Driver.Aggsender.step {}; return 0
   | ["certcodec"] => loop inp Driver.CertCodec.step (); return 0
